@@ -95,7 +95,6 @@ def run_dataset(job):
                 except Exception as e:      # noqa
                     o["model_skip"] = "glue mirror raised %s: %s" % (type(e).__name__, str(e)[:100])
             out["progs"].append(o)
-        out["chunks"] = None
         return out
     finally:
         shutil.rmtree(tmp, ignore_errors=True)
